@@ -599,6 +599,16 @@ func runC16(w *core.WorkerCtx, idx int) *core.CaseResult {
 	r := core.NewRng(w.Seed, 0xC16, uint64(idx))
 	res := &core.CaseResult{}
 	spec := cfggen.Gen(r, false)
+	if r.Intn(2) == 0 && len(spec.Jobs) > 0 {
+		// a long scalar with blanks beyond column 80 (a federation selector): where a YAML renderer may fold lines
+		j := &spec.Jobs[r.Intn(len(spec.Jobs))]
+		p2 := map[string][]string{}
+		for k, v := range j.Params {
+			p2[k] = v
+		}
+		p2["selector"] = []string{`{__name__=~"job:.*|node:.*|instance:.*", cluster="prod eu west 1", note="a long value with blanks that runs well past column eighty of the line"}`}
+		j.Params = p2
+	}
 	base := cfggen.Render(spec, cfggen.Style{Indent: 2})
 	h0, err := hashOf(base)
 	if err != nil {
@@ -991,6 +1001,17 @@ func c16Wired(w *core.WorkerCtx, idx int, r *core.Rng, spec *cfggen.Spec, res *c
 		}
 		return out.Data.ConfigHash, nil
 	}
+	// the reference is what a process that has done nothing but hash computes (the coordinator never renders
+	// a generated file; this worker process, which also runs in-process sidecars, might share hidden global state with them)
+	if hc, err := childHash(w.Self, text); err == nil {
+		want = hc
+	}
+	s3 := clone(s2)
+	if len(s3.Jobs) > 0 {
+		s3.Jobs[0].Interval, s3.Jobs[0].Timeout = "43s", "9s"
+	}
+	text3 := cfggen.Render(s3, cfggen.Style{Indent: 2})
+	want3, err3 := childHash(w.Self, text3)
 	rsteps := []step{
 		{"configuration pushed", func() error { return post("/api/v1/status/config/", &shard.UpdateConfigRequest{RawContent: text}) }},
 		{"stop reason set", func() error {
@@ -999,6 +1020,13 @@ func c16Wired(w *core.WorkerCtx, idx int, r *core.Rng, spec *cfggen.Spec, res *c
 		{"stop reason cleared", func() error { return post("/api/v1/status/extra_config/", &prom.ExtraConfig{}) }},
 		{"same configuration pushed again", func() error { return post("/api/v1/status/config/", &shard.UpdateConfigRequest{RawContent: text}) }},
 		{"stop reason set again", func() error { return post("/api/v1/status/extra_config/", &prom.ExtraConfig{StopScrapeReason: "x"}) }},
+	}
+	if err3 == nil {
+		// a later configuration version reaches a sidecar process that has already rendered generated files
+		rsteps = append(rsteps, step{"a second configuration version pushed", func() error {
+			want = want3
+			return post("/api/v1/status/config/", &shard.UpdateConfigRequest{RawContent: text3})
+		}})
 	}
 	for _, st := range rsteps {
 		if err := st.do(); err != nil {
